@@ -89,16 +89,27 @@ def rule_number_text_pitfalls(ctx, rep, rid: str) -> None:
 
 
 def _json_funcs(ctx) -> Tuple[Func, Func, Optional[Func]]:
+    """JSON.parse native, JSON.stringify native, and the recursive value converter (found by shape: the
+    self-recursive closure of the JSON factory that iterates over `._properties.items()`)."""
     parse = stringify = conv = None
     for f in ctx.tree.funcs:
         if f.module.name == "context" and f.name == "parse_fn":
             parse = f
         if f.module.name == "context" and f.name == "stringify_fn":
             stringify = f
-        if f.module.name == "context" and f.name == "to_json_value":
-            conv = f
     if parse is None or stringify is None:
         raise AnalysisError("JSON.parse / JSON.stringify natives not found")
+    factory = stringify.parent
+    for f in ctx.tree.funcs:
+        g = f.parent
+        while g is not None and g is not factory:
+            g = g.parent
+        if g is not factory or f is stringify:
+            continue
+        rec = any(isinstance(n, ast.Call) and isinstance(n.func, ast.Name) and n.func.id == f.name for n in f.own_nodes())
+        props = any(isinstance(n, ast.For) and "_properties" in norm(n.iter) for n in f.own_nodes())
+        if rec and props:
+            conv = f
     return parse, stringify, conv
 
 
@@ -124,14 +135,25 @@ def rule_json_codec(ctx, rep, rid: str) -> None:
                     rep.bad(rid, key + ":ensure_ascii", "JSON.stringify calls json.dumps with the host default ensure_ascii=True: non-ASCII characters are written as \\uXXXX escapes, which ECMAScript does not do", f"{f.module.rel}:{n.lineno}")
                 else:
                     rep.ok(rid, key + ":ensure_ascii")
-                if kws.get("allow_nan") != "False":
+                arg0 = n.args[0] if n.args else None
+                only_str = False
+                if isinstance(arg0, ast.Name):
+                    if any(pol and norm(t) == f"isinstance({arg0.id}, str)" for t, pol in guards_of(n, f.node)):
+                        only_str = True
+                    for lp in f.own_nodes():
+                        if isinstance(lp, ast.For) and "_properties" in norm(lp.iter) and isinstance(lp.target, ast.Tuple) and isinstance(lp.target.elts[0], ast.Name) and lp.target.elts[0].id == arg0.id:
+                            only_str = True  # a property key
+                if only_str:
+                    rep.ok(rid, key + ":allow_nan", {"note": "the host encoder only receives strings here"})
+                elif kws.get("allow_nan") != "False":
                     rep.bad(rid, key + ":allow_nan", "JSON.stringify lets json.dumps print NaN/Infinity (host default allow_nan=True); ECMAScript prints null", f"{f.module.rel}:{n.lineno}")
                 else:
                     rep.ok(rid, key + ":allow_nan")
     # numbers must not reach the host encoder as floats
     if conv is not None:
         for n in conv.own_nodes():
-            if isinstance(n, ast.Return) and isinstance(n.value, ast.Name):
+            host_spelling = isinstance(n, ast.Return) and n.value is not None and (isinstance(n.value, (ast.Name, ast.JoinedStr)) or (isinstance(n.value, ast.Call) and norm(n.value.func) in ("str", "repr", "json.dumps", "format", "float.__repr__")))
+            if host_spelling:
                 g = [norm(t) for t, pol in guards_of(n, conv.node) if pol]
                 if any("(int, float)" in x for x in g):
                     rep.bad(rid, f"{conv.qual}:number-branch", "JSON.stringify hands Python floats to the host encoder, which prints 1.0 and 1e+21 where ECMAScript prints 1 and 1e+21 -> '1e+21'/'1': numbers must go through the engine's own number-to-string", f"{conv.module.rel}:{n.lineno}")
@@ -144,17 +166,44 @@ def rule_json_omission(ctx, rep, rid: str) -> None:
     rep.rule(rid, "JSON.stringify applies the omission rules: undefined and functions are skipped in objects, become null in arrays, and a non-serialisable root yields undefined", floor=2)
     parse, stringify, conv = _json_funcs(ctx)
     if conv is None:
-        raise AnalysisError("to_json_value not found")
-    obj_filter = None
-    for n in conv.own_nodes():
-        if isinstance(n, ast.If) and any("_properties" in norm(p) for p in _parents(n)):
-            obj_filter = norm(n.test)
+        raise AnalysisError("the recursive JSON value converter was not found")
     key = f"{conv.qual}:object-omission"
-    if obj_filter and ("callable" in obj_filter or "JSFunction" in obj_filter):
+    loop = next((n for n in conv.own_nodes() if isinstance(n, ast.For) and "_properties" in norm(n.iter)), None)
+    valvar = loop.target.elts[1].id if isinstance(loop.target, ast.Tuple) and len(loop.target.elts) == 2 and isinstance(loop.target.elts[1], ast.Name) else None
+    ok = False
+    obj_filter = None
+    # (a) the loop filters the value itself
+    for n in ast.walk(loop):
+        if isinstance(n, ast.If):
+            t = norm(n.test)
+            if valvar and valvar in t:
+                obj_filter = t
+                if "UNDEFINED" in t and ("callable" in t or "JSFunction" in t):
+                    ok = True
+    # (b) the converter has a "no JSON form" result (None) for undefined and functions, and the loop keeps an
+    #     entry only when the recursive result is not None
+    if not ok:
+        none_guards = []
+        for n in conv.own_nodes():
+            if isinstance(n, ast.Return) and isinstance(n.value, ast.Constant) and n.value.value is None:
+                none_guards.append(" and ".join(norm(t) for t, pol in guards_of(n, conv.node) if pol))
+        has_sentinel = any("UNDEFINED" in g and ("JSFunction" in g or "callable" in g) for g in none_guards)
+        tested = False
+        for n in ast.walk(loop):
+            if isinstance(n, ast.Assign) and isinstance(n.value, ast.Call) and isinstance(n.value.func, ast.Name) and n.value.func.id == conv.name and isinstance(n.targets[0], ast.Name):
+                tv = n.targets[0].id
+                for m in ast.walk(loop):
+                    if isinstance(m, ast.If) and norm(m.test) == f"{tv} is not None":
+                        tested = True
+        if has_sentinel and tested:
+            ok = True
+        elif has_sentinel:
+            obj_filter = "the recursive result, without testing it for 'no JSON form'"
+    if ok:
         rep.ok(rid, key)
     else:
         rep.bad(rid, key, f"the object branch of JSON.stringify only filters `{obj_filter}`: function-valued properties are serialised as null instead of being omitted", conv.loc)
-    root_ok = any(isinstance(n, ast.Return) and norm(n.value) == "UNDEFINED" for n in stringify.own_nodes() if isinstance(n, ast.Return) and n.value is not None)
+    root_ok = any(isinstance(n, ast.Return) and n.value is not None and "UNDEFINED" in norm(n.value) for n in stringify.own_nodes())
     key = f"{stringify.qual}:root"
     if root_ok:
         rep.ok(rid, key)
